@@ -331,6 +331,31 @@ func randPlan(r *Rand, maxDim int, wantFeat string) *fPlan {
 		}
 		p.refP[0], p.refD[0] = true, r.Range(10, 40) // pulled back into range by the delta
 		p.Feat = append(p.Feat, "midclamp")
+	case "thr":
+		// final filter level exactly at a threshold of the hev / interior-limit rules, low-amplitude
+		// residuals (sample steps of 1 and 2 across edges); not a deviation class: tag stays "plain"
+		p.simple = false
+		p.level = r.Pick(1, 14, 15, 16, 39, 40, 41, 63)
+		p.deltaEn = false
+		if p.segEnabled {
+			p.segUpdData, p.segAbs = true, true
+			for i := 0; i < 4; i++ {
+				p.segLFP[i] = true
+				p.segLF[i] = r.Pick(1, 14, 15, 16, 39, 40, 41, 63)
+			}
+		}
+		p.baseQ = r.Intn(12)
+		for i := range p.qdP {
+			p.qdP[i] = false
+		}
+		if p.segEnabled {
+			for i := 0; i < 4; i++ {
+				p.segQP[i] = true
+				p.segQ[i] = r.Intn(12)
+			}
+		}
+		p.coefScale = 0
+		p.Notes = append(p.Notes, "threshold-level")
 	case "zeromb":
 		p.allowZeroMB = true
 		p.modeMix = 0
@@ -736,6 +761,8 @@ func foreignStreams(c *Ctx) {
 			feat = "midclamp"
 		case 9:
 			feat = "zeromb"
+		case 1, 5:
+			feat = "thr"
 		}
 		md := maxDim
 		if i%7 != 0 && md > 48 {
